@@ -580,31 +580,31 @@ type rsHold struct {
 }
 
 type rsWorld struct {
-	s        *sim
-	rng      *rand.Rand
-	objs     [2]map[uint16][]*rsObj
-	msgObj   [2]map[uint16]map[int]int     // writer side, sid, message index -> ordinal of the object it was written on
-	readBy   [2]map[uint16]map[int]bool    // reader side, sid, message index (of the peer) -> delivered
-	reqIDs   [2]map[uint32][]uint16        // requests emitted by side: rsn -> ids
-	perf     [2]map[uint16]map[uint32]bool // perf[x][sid][rsn]: side x answered SuccessPerformed to the peer's request rsn that names sid
-	wireSeen int
-	held     map[int]*rsHold
-	sched    map[int]rsAct // ordinal of RECONFIG packet (emission order, both directions) -> action
-	ordinal  map[int]int   // packet id -> RECONFIG ordinal
-	nReconf  int
-	dataLoss int // percent of non-RECONFIG packets dropped
-	dataDup  int
-	dataReo  int
-	step     time.Duration
-	stats    *rsStats
-	preEOF   [2]map[uint16]bool
-	preCnt   [2]map[uint16][3]uint32
-	preObj   [2]map[uint16]*Stream
-	strict   bool
+	s          *sim
+	rng        *rand.Rand
+	objs       [2]map[uint16][]*rsObj
+	msgObj     [2]map[uint16]map[int]int     // writer side, sid, message index -> ordinal of the object it was written on
+	readBy     [2]map[uint16]map[int]bool    // reader side, sid, message index (of the peer) -> delivered
+	reqIDs     [2]map[uint32][]uint16        // requests emitted by side: rsn -> ids
+	perf       [2]map[uint16]map[uint32]bool // perf[x][sid][rsn]: side x answered SuccessPerformed to the peer's request rsn that names sid
+	wireSeen   int
+	held       map[int]*rsHold
+	sched      map[int]rsAct // ordinal of RECONFIG packet (emission order, both directions) -> action
+	ordinal    map[int]int   // packet id -> RECONFIG ordinal
+	nReconf    int
+	dataLoss   int // percent of non-RECONFIG packets dropped
+	dataDup    int
+	dataReo    int
+	step       time.Duration
+	stats      *rsStats
+	preEOF     [2]map[uint16]bool
+	preCnt     [2]map[uint16][3]uint32
+	preObj     [2]map[uint16]*Stream
+	strict     bool
 	rec        *rsRecorder
 	decidedAll map[int]bool
 	stop       bool
-	noLong     bool // quiesce mode: nothing is held across a reopen
+	noLong     bool            // quiesce mode: nothing is held across a reopen
 	blamed     map[string]bool // (side,sid,ord) for which a root-cause monitor already fired
 	apiMode    bool            // reopen on the API signal only: outside the property's precondition, failures become observations
 }
@@ -1596,7 +1596,9 @@ func rsRunRandom(t *testing.T, prefix, def string, mode string) {
 
 // TestVerifSimResetQuiet: random scenarios; the identifier is reopened only when no reset state naming it is
 // left (precondition of the theorems c14_*): P_C14 must hold.  Writes the step-commuting records.
-func TestVerifSimResetQuiet(t *testing.T) { rsRunRandom(t, "SIMRESETQUIET", "/tmp/verif_reset_quiet.trace", "quiet") }
+func TestVerifSimResetQuiet(t *testing.T) {
+	rsRunRandom(t, "SIMRESETQUIET", "/tmp/verif_reset_quiet.trace", "quiet")
+}
 
 // TestVerifSimReset: random scenarios; the identifier is reopened as soon as both directions have been reset
 // (both peers answered SuccessPerformed): the property as stated.
@@ -1604,7 +1606,9 @@ func TestVerifSimReset(t *testing.T) { rsRunRandom(t, "SIMRESET", "/tmp/verif_re
 
 // TestVerifSimResetAPI: reopen on the API signal alone (State()==Closed and io.EOF read) - outside the
 // property's precondition; what goes wrong is printed as SIMOBS observations.
-func TestVerifSimResetAPI(t *testing.T) { rsRunRandom(t, "SIMRESETAPI", "/tmp/verif_reset_api.trace", "api") }
+func TestVerifSimResetAPI(t *testing.T) {
+	rsRunRandom(t, "SIMRESETAPI", "/tmp/verif_reset_api.trace", "api")
+}
 
 // TestVerifSimResetExhaustive: every schedule of at most k faults (drop / duplicate / delay, short and
 // long) on the first RECONFIG packets of a two-cycle close -> peer closes -> reopen -> transfer script.
